@@ -521,7 +521,7 @@ RECIPES = {
                 "bit for bit. non-trivial = every run (each exercises at least chunked writes); distinct = hash of (context, kinds, contents, wire seeds)",
         "technique": "deterministic simulation of the store/wire (fopencookie FILE* and custom streambuf, seeded chunking and short reads) "
                      "with crash/restart of the cloud actor; history checks over recorded bytes and objects",
-        "level_text": "Seeded exploration: byte equality across transports and chunkings, deep field equality (doubles bit for bit), re-export idempotence, "
+        "level_text": "Seeded exploration: byte equality across chunkings of one transport, deep field equality (doubles bit for bit), re-export idempotence, "
                       "exact consumption of concatenated streams, and bit-identical gate outputs and decryptions after the cloud key has been "
                       "re-imported mid-circuit. Sampling over objects, contents and chunkings; not a proof.",
         "level_note": "Default-set keys (113 MB) appear a few times per run of the check, small swarm keys thousands of times. Comparators are the "
@@ -544,10 +544,12 @@ RECIPES = {
                      "byte-for-byte refinement against a sequential reference; planner lock-discipline invariant; replayable explicit schedules",
         "level_text": "Seeded search over schedules, thread counts, operation mixes and histories on all ten builds; every output ciphertext must be "
                       "bit-identical to the sequential reference, shared key/inputs/generator must be untouched, and every FFTW planner call must be "
-                      "made under a mutex common to all planner callers. Preemption granularity is the interposed call.",
+                      "made under a mutex common to all planner callers. Preemption granularity is the interposed call (incl. the library's sin/cos calls "
+                      "while tables are computed). Cold-process runs make the tasks' first transforms the first ones of the process; sampled runs "
+                      "that differ between worker processes are re-executed alone and after their process history (C06.process-history).",
         "level_note": "A race confined to straight-line code between two interposed calls cannot be scheduled (DESIGN.md section 9). Data-race freedom "
                       "is decided through its observable consequence (divergence from the sequential reference under some schedule) and the lock "
-                      "discipline, not by a happens-before detector; the TSan stress batch (thorough tier) is auxiliary.",
+                      "discipline, not by a happens-before detector; the free-running TSan stress batch is auxiliary.",
         "assumptions": ["thread_local state is per pthread (tasks are real threads, not fibres)", "floating-point FFT code is deterministic for equal inputs on one machine"],
     },
     "C02": {
@@ -703,9 +705,12 @@ RECIPES = {
                 "(strict prefix) and searched for every encoding of the LWE key and of ring-key windows (int32, bytes, ASCII, packed bits both "
                 "orders; only non-degenerate patterns >= 16 bytes); then imported and used. Histories: secret material exported before the cloud key, a second writer open at the same time, or (overlap 4..6) a secret export running in ANOTHER simulated task while this one exports the cloud key, every write call reaching a store being a scheduling point of the seeded scheduler. All runs count as non-trivial; distinct = hash of "
                 "(spec, key seed, transport, chunk seed)",
-        "technique": "deterministic simulation of the export path with a write recorder on both transports; history check over the recorded bytes",
+        "technique": "deterministic simulation of the export path with a write recorder on both transports (write calls are scheduling points of the seeded "
+                     "scheduler when a second task exports secret material concurrently); history check over the recorded bytes",
         "level_text": "Seeded exploration over keys, parameter sets (both defaults plus small sets), transports and chunkings; exact-size, "
-                      "strict-prefix and absence-of-secret oracles over everything written, plus an import-and-evaluate check.",
+                      "strict-prefix and absence-of-secret oracles over everything written (byte-for-byte comparison of the binary part with an "
+                      "observer-side serialisation of the in-memory public rows; no row with a constant mask), plus an import-and-evaluate check; "
+                      "histories incl. a secret export running concurrently in another simulated task.",
         "level_note": "The substring search can only find the encodings it enumerates (those the library uses plus packed/ASCII variants); a "
                       "self-test confirms on every run that the int32 encoding IS found in the secret key set export.",
         "assumptions": ["secret material would be leaked in one of the enumerated encodings"],
